@@ -18,6 +18,18 @@ Definition ws_ok (w : ws) : Prop :=
 Definition dirs_explicit (t' : target) : Prop :=
   forall k, lookup t' k <> None -> forall p, strict_prefix p k = true -> p <> [] -> t_dir (lookup t' p) = true.
 
+(* target, general form: nothing lies below a file entry; directories may have an entry (build(),
+   lazy loading) or be implicit trie nodes (an index of file entries only) *)
+Definition tgt_ok (t' : target) : Prop :=
+  forall k, lookup t' k <> None -> forall p, strict_prefix p k = true -> t_file (lookup t' p) = false.
+
+Lemma dirs_explicit_tgt_ok t' : dirs_explicit t' -> t_file (lookup t' []) = false -> tgt_ok t'.
+Proof.
+  intros H R k N p P. destruct p as [|x p]; auto.
+  assert (NE : x :: p <> []) by discriminate. specialize (H k N _ P NE).
+  destruct (lookup t' (x :: p)) as [[]|]; simpl in *; congruence.
+Qed.
+
 Lemma has_child_spec k (w : ws) :
   has_child k w = true <-> exists k', strict_prefix k k' = true /\ lookup w k' <> None.
 Proof.
@@ -123,7 +135,7 @@ Section DeletePhase.
   Let t' := fst (expand tr t).
   Let p := compare false true w tr t.
   Hypothesis Hw : ws_ok w.
-  Hypothesis Ht : dirs_explicit t'.
+  Hypothesis Ht : tgt_ok t'.
 
   (* nothing of the target lies below a key that is absent from it (and is no implicit node), or
      below a file entry *)
@@ -136,7 +148,7 @@ Section DeletePhase.
       assert (N2 : lookup t' k2 <> None) by congruence.
       destruct H as [[E0 HN]|TF].
       - assert (X : has_node t' k = true) by (apply has_node_spec; eauto). congruence.
-      - pose proof (Ht _ N2 _ P2 NE) as D. destruct (lookup t' k) as [[]|]; discriminate. }
+      - pose proof (Ht _ N2 _ P2) as D. congruence. }
     split; auto. destruct (has_node t' k') eqn:E; auto.
     apply has_node_spec in E as [k2 [P2 N2]]. rewrite (A k2) in N2; [congruence|]. eapply strict_prefix_trans; eauto.
   Qed.
